@@ -13,21 +13,66 @@ from .frontend import AnalysisError, Program, unparse
 from .values import Obj, V
 
 
-def json_projection(p: Program) -> Dict[str, Set[str]]:
-    """{"Sensor": {...}, "ChildSensor": {...}} from MySensorsJSONEncoder.default."""
+def json_projection(p: Program, with_conditional: bool = False):
+    """{"Sensor": {...}, "ChildSensor": {...}} from MySensorsJSONEncoder.default.
+
+    Recognised forms per class branch: a returned dict literal, or a dict literal bound to a
+    name, extended by `name[key] = ...` stores (key a constant or a loop variable over a tuple
+    of constants) and returned. Keys stored under a condition are reported separately.
+    """
     info = p.funcs.get("persistence:MySensorsJSONEncoder.default")
     if info is None:
         raise AnalysisError("anchor vanished: persistence:MySensorsJSONEncoder.default")
     res: Dict[str, Set[str]] = {}
+    cond: Dict[str, Set[str]] = {}
     for node in ast.walk(info.node):
-        if isinstance(node, ast.If) and isinstance(node.test, ast.Call) and unparse(node.test.func) == "isinstance" and len(node.test.args) == 2:
-            cls = unparse(node.test.args[1])
-            for r in ast.walk(node):
-                if isinstance(r, ast.Return) and isinstance(r.value, ast.Dict):
-                    keys = {k.value for k in r.value.keys if isinstance(k, ast.Constant)}
-                    res.setdefault(cls, set()).update(keys)
+        if not (isinstance(node, ast.If) and isinstance(node.test, ast.Call) and unparse(node.test.func) == "isinstance" and len(node.test.args) == 2):
+            continue
+        cls = unparse(node.test.args[1])
+        keys: Set[str] = set()
+        ckeys: Set[str] = set()
+        names: Dict[str, Set[str]] = {}
+        for st in ast.walk(node):
+            if isinstance(st, ast.Assign) and len(st.targets) == 1 and isinstance(st.targets[0], ast.Name) and isinstance(st.value, ast.Dict):
+                names[st.targets[0].id] = {k.value for k in st.value.keys if isinstance(k, ast.Constant)}
+
+        def visit(stmts, conditional, loopvars):
+            for st in stmts:
+                if isinstance(st, ast.For) and isinstance(st.target, ast.Name) and isinstance(st.iter, (ast.Tuple, ast.List)):
+                    lv = dict(loopvars)
+                    lv[st.target.id] = {e.value for e in st.iter.elts if isinstance(e, ast.Constant)}
+                    visit(st.body, conditional, lv)
+                elif isinstance(st, ast.If):
+                    visit(st.body, True, loopvars)
+                    visit(st.orelse, True, loopvars)
+                elif isinstance(st, ast.Assign):
+                    for t in st.targets:
+                        if isinstance(t, ast.Subscript) and isinstance(t.value, ast.Name) and t.value.id in names:
+                            ks = set()
+                            if isinstance(t.slice, ast.Constant):
+                                ks = {t.slice.value}
+                            elif isinstance(t.slice, ast.Name) and t.slice.id in loopvars:
+                                ks = set(loopvars[t.slice.id])
+                            names[t.value.id] |= ks
+                            if conditional:
+                                ckeys.update(ks)
+                elif isinstance(st, (ast.With, ast.Try)):
+                    visit(getattr(st, "body", []), conditional, loopvars)
+
+        visit(node.body, False, {})
+        for r in ast.walk(node):
+            if isinstance(r, ast.Return):
+                if isinstance(r.value, ast.Dict):
+                    keys |= {k.value for k in r.value.keys if isinstance(k, ast.Constant)}
+                elif isinstance(r.value, ast.Name) and r.value.id in names:
+                    keys |= names[r.value.id]
+        if keys:
+            res.setdefault(cls, set()).update(keys)
+            cond.setdefault(cls, set()).update(ckeys)
     if "Sensor" not in res or "ChildSensor" not in res:
-        raise AnalysisError("JSON encoder projection not recognised (expected dict literals for Sensor and ChildSensor)")
+        raise AnalysisError("JSON encoder projection not recognised (expected a dict per class branch for Sensor and ChildSensor)")
+    if with_conditional:
+        return res, cond
     return res
 
 
